@@ -101,7 +101,9 @@ DateAtoms == {Cmp(op, l) : op \in Ops6, l \in DateLits}
              \cup {IsNull(neg) : neg \in BOOLEAN}
 AnyAtoms == {Cmp(op, l) : op \in Ops6, l \in {S(sA), S(s1), N(1), N(2), F2(3)}}
             \cup {Cmp(op, l) : op \in {"eq", "ne"}, l \in BoolLits} \cup {Cmp(op, D(1)) : op \in {"eq", "lt", "ge"}}
-            \cup {In(neg, ls) : neg \in BOOLEAN, ls \in {{S(sA), S(s1)}, {N(1), N(2)}}}
+            \cup {In(neg, ls) : neg \in BOOLEAN, ls \in {{S(sA), S(s1)}, {N(1), N(2)}, {F2(3), F2(7)}, {F2(5000000)}}}
+            \* (groups of float operands: the symbol is viewed as a float, int values convert)
+            \cup {Btw(neg, lo, hi) : neg \in BOOLEAN, lo \in {F2(-1), F2(3)}, hi \in {F2(3), F2(20)}}
             \cup {Has(neg, ci, S(sA)) : neg \in BOOLEAN, ci \in BOOLEAN} \cup {Has(neg, FALSE, l) : neg \in BOOLEAN, l \in {S(s25), N(2500)}}
             \cup {IsNull(neg) : neg \in BOOLEAN}
 
@@ -164,6 +166,14 @@ SubQ == {Q([k |-> "countq", sym |-> sym, q |-> q, op |-> op, n |-> n]) : sym \in
         \cup {Q([k |-> "isEmptyq", sym |-> sym, q |-> q]) : sym \in {<<"places">>, <<"boss", "places">>}, q \in PlaceSubQs}
         \cup {Q([k |-> "not", e |-> [k |-> "isEmptyq", sym |-> sym, q |-> q]]) : sym \in {<<"boss", "places">>}, q \in PlaceSubQs}
 
+\* sub-queries with a sort clause of their own (legal; without paging it cannot change what the set function sees) -- the sort fields
+\* are symbols the query references like any other
+SortedSubQs == {[p |-> p, sort |-> so, skip |-> NoVal, limit |-> NoVal] : p \in {TRUEF, A1},
+                 so \in {<<[sym |-> <<"m">>, asc |-> TRUE]>>, <<[sym |-> <<"n">>, asc |-> FALSE], [sym |-> <<"boss">>, asc |-> TRUE]>>}}
+SubQSorted == {Q([k |-> "countq", sym |-> sym, q |-> q, op |-> "gt", n |-> N(0)]) : sym \in {<<"peers">>, <<"boss", "peers">>}, q \in SortedSubQs}
+              \cup {Q([k |-> "isEmptyq", sym |-> <<"peers">>, q |-> q]) : q \in SortedSubQs}
+              \cup {Q([k |-> "isEmptyq", sym |-> <<"peers">>, q |-> Q([k |-> "not", e |-> [k |-> "isEmptyq", sym |-> <<"peers">>, q |-> q]])]) : q \in SortedSubQs}
+
 \* sorting and paging
 SortSyms == {<<"s">>, <<"n">>, <<"m">>, <<"f">>, <<"b">>, <<"t">>, <<"id">>, <<"boss">>}
 Sorts == {<< >>} \cup {<<[sym |-> a, asc |-> d]>> : a \in SortSyms, d \in BOOLEAN}
@@ -208,7 +218,14 @@ HeadQ == {Q([k |-> c, l |-> BossNull, r |-> BossS]) : c \in {"and", "or"}} \cup 
                [p |-> [k |-> "atom", sym |-> <<"tags", "k">>, a |-> IsNull(TRUE)], sort |-> <<[sym |-> <<"boss", "s">>, asc |-> TRUE]>>, skip |-> NoVal, limit |-> NoVal]}
 SortSymQ == {[p |-> p, sort |-> so, skip |-> NoVal, limit |-> NoVal] : p \in PagePreds \cup {A1, A4}, so \in Sorts} \cup HeadQ
 
-QueriesOf(m) == CASE m = "datasets" -> {Q(TRUEF)} [] m = "probe" -> ProbeQ [] m = "sortsyms" -> SortSymQ [] m = "mix" -> MixQ [] m = "scalar" -> ScalarQ [] m = "set" -> SetQ [] m = "bool" -> BoolQ [] m = "subq" -> SubQ [] m = "page" -> PageQ
+\* C11: string literals in every operand position of symbols backed by the real stores: own field, id, fields reached through a
+\* foreign key (the empty string is a value, not "no value"), map values
+LitSyms == {<<"s">>, <<"id">>, <<"boss", "s">>, <<"boss", "boss", "s">>, <<"boss", "id">>, <<"tags", "k">>}
+LitQ == {Q([k |-> "atom", sym |-> sym, a |-> a]) : sym \in LitSyms, a \in {x \in StrAtoms : x.k # "null" /\ (x.k = "cmp" => x.lit.t = "s")}}
+        \cup {Q([k |-> fn, sym |-> sym, a |-> a]) : fn \in {"anyOf", "allOf"}, sym \in {<<"roles">>, <<"peers", "s">>, <<"peers", "boss", "s">>},
+                                                   a \in {Cmp("eq", S(sE)), Cmp("ne", S(sE)), In(FALSE, {S(sA), S(sUAB), S(sE)}), Has(FALSE, FALSE, S(sE))}}
+
+QueriesOf(m) == CASE m = "lit" -> LitQ [] m = "datasets" -> {Q(TRUEF)} [] m = "probe" -> ProbeQ [] m = "sortsyms" -> SortSymQ [] m = "mix" -> MixQ [] m = "scalar" -> ScalarQ [] m = "set" -> SetQ [] m = "bool" -> BoolQ [] m = "subq" -> SubQ \cup SubQSorted [] m = "page" -> PageQ
 
 \* one case per (dataset, query); sharded by a cheap hash so that several TLC processes split a slice
 VARIABLES ds, q, n
